@@ -2,6 +2,7 @@ import PgsVerif.Model.Proto
 import PgsVerif.Model.CleanName
 import PgsVerif.Model.NameSplit
 import PgsVerif.Model.Params
+import PgsVerif.Model.Comment
 /-
   JSON glue: one `Engine` per correspondence.  Only decoding/encoding lives here; every function
   called is the very definition the theorems in `PgsVerif/Props` are about.
@@ -97,7 +98,19 @@ deriving instance FromJson, ToJson for Obs
 def engine : Engine := mkEngine (I := In) (O := Obs) model dom judge
 end C19
 
+/-! ### C20 comment wrapping -/
+namespace C20
+deriving instance FromJson, ToJson for R
+deriving instance FromJson, ToJson for Line
+structure In where
+  wrap : Int
+  runes : List R
+deriving FromJson, ToJson
+def engine : Engine :=
+  mkEngine (I := In) (O := List Line) (fun i => model i.wrap i.runes) (fun _ => true) (fun i o => judge i.wrap i.runes o)
+end C20
+
 def engines : List (String × Engine) :=
-  [ ("c11", C11.engine), ("fp", FP.engine), ("c15", C15.engine), ("c19", C19.engine) ]
+  [ ("c11", C11.engine), ("fp", FP.engine), ("c15", C15.engine), ("c19", C19.engine), ("c20", C20.engine) ]
 
 end Pgs
